@@ -341,3 +341,39 @@ package stringlib
 //@   requires u != nil
 //@   modifies everything()
 //@   exits ContextTerminationError
+
+// ---------------------------------------------------------------------------
+// C06: string.pack charges its budget for every byte it produces
+// ---------------------------------------------------------------------------
+// The packer's budget is the memory the context has left; `used` must advance by
+// at least the number of bytes appended to the result, before they are written,
+// whatever size the format announces (a fixed-size `cN` field is padded with
+// zeros up to N: the padding counts).  Amounts are below 2^62 (no wrap-around).
+//@ macro packOK(p) = (p != nil && p.used <= p.budget && p.budget < 4611686018427387904)
+
+//@ func (*packer).consumeBudget
+//@   prop C06
+//@   arith int
+//@   requires p != nil
+//@   modifies p.used, p.err
+//@   ensures p.budget == 0 ==> result0 && p.used == old(p.used)
+//@   ensures p.budget != 0 && old(p.used) + amount <= p.budget ==> result0 && p.used == old(p.used) + amount
+//@   ensures p.budget != 0 && old(p.used) + amount > p.budget && old(p.used) + amount < 18446744073709551616 ==> !result0 && p.used == p.budget
+
+//@ func (*packer).fill
+//@   prop C06
+//@   arith int
+//@   requires packOK(p) && n < 4611686018427387904
+//@   modifies all(p)
+//@   ensures p.budget == old(p.budget)
+//@   ensures p.budget != 0 && result0 ==> p.used == old(p.used) + n   // the padding is paid for
+//@   ensures !result0 ==> p.used <= p.budget
+//@   loop 1: invariant p.budget == old(p.budget) && (p.budget == 0 || p.used == old(p.used) + old(n))
+
+//@ func (*packer).writeStr
+//@   prop C06
+//@   arith int
+//@   requires packOK(p) && maxLen < 4611686018427387904
+//@   modifies all(p)
+//@   ensures p.budget == old(p.budget)
+//@   ensures p.budget != 0 && result0 ==> p.used == old(p.used) + ite(maxLen > len(old(p.strVal)), maxLen, len(old(p.strVal)))   // string bytes plus zero padding up to the fixed size
